@@ -142,3 +142,131 @@ func vReverseInts(a []int) []int {
 	}
 	return r
 }
+
+// ---------------------------------------------------------------------------
+// Operand builder: a tensor of a requested logical shape and content in a given memory layout,
+// built with the real API from a parent whose every cell is symbolic.
+//
+//	C   contiguous row-major
+//	F   column-major (AsFortran(nil) over raw backing)
+//	T   lazily transposed (parent has the reversed shape)
+//	S   unit-step interior window (last axis padded by one cell on both sides; rank 1: a window of a longer vector)
+//	SS  step-2 slice on the last axis
+//	M   materialised S view
+//	TS  interior window of a lazily transposed parent
+//
+// Returns the tensor and its logical content in row-major order of `shape` (fresh symbols named <name>_k).
+func vMkOperand[T vScalar](name string, shape []int, layout string) (*Dense, []T) {
+	n := vProd(shape)
+	want := vNondetSlice[T](name, n)
+	rank := len(shape)
+	if rank == 0 {
+		// scalar tensors have a single layout
+		b := make([]T, 1)
+		b[0] = want[0]
+		return New(WithShape(), WithBacking(b)), want
+	}
+	switch layout {
+	case "C":
+		b := make([]T, n)
+		copy(b, want)
+		return New(WithShape(shape...), WithBacking(b)), want
+	case "F":
+		b := make([]T, n)
+		vForCoords(shape, func(c []int) { b[vColRank(shape, c)] = want[vRowRank(shape, c)] })
+		return New(WithShape(shape...), WithBacking(b), AsFortran(nil)), want
+	case "T":
+		ps := vReverseInts(shape)
+		b := make([]T, n)
+		vForCoords(shape, func(c []int) { b[vRowRank(ps, vReverseInts(c))] = want[vRowRank(shape, c)] })
+		t := New(WithShape(ps...), WithBacking(b))
+		if rank >= 2 {
+			if err := t.T(); err != nil {
+				panic("vMkOperand: T failed")
+			}
+		}
+		return t, want
+	case "S", "M", "SS":
+		ps := vCopyInts(shape)
+		last := rank - 1
+		var sl Slice
+		if layout == "SS" {
+			ps[last] = 2 * shape[last]
+			sl = S(0, ps[last], 2)
+		} else {
+			ps[last] = shape[last] + 2
+			sl = S(1, 1+shape[last], 1)
+		}
+		pad := vNondetSlice[T](name+"_pad", vProd(ps))
+		b := make([]T, vProd(ps))
+		copy(b, pad)
+		vForCoords(shape, func(c []int) {
+			pc := vCopyInts(c)
+			if layout == "SS" {
+				pc[last] = 2 * c[last]
+			} else {
+				pc[last] = c[last] + 1
+			}
+			b[vRowRank(ps, pc)] = want[vRowRank(shape, c)]
+		})
+		p := New(WithShape(ps...), WithBacking(b))
+		sls := make([]Slice, rank)
+		sls[last] = sl
+		v, err := p.Slice(sls...)
+		if err != nil {
+			panic("vMkOperand: Slice failed")
+		}
+		d := v.(*Dense)
+		if layout == "M" {
+			return d.Materialize().(*Dense), want
+		}
+		if !d.Shape().Eq(Shape(shape)) && !(vProd(shape) == 1) {
+			// slicing dropped a unit axis: restore the requested rank is not possible for a view; callers avoid such shapes
+			panic("vMkOperand: view shape differs from requested shape")
+		}
+		return d, want
+	}
+	panic("vMkOperand: unknown layout " + layout)
+}
+
+// vLayoutOK tells whether vMkOperand can produce `layout` for `shape` with exactly that shape.
+func vLayoutOK(shape []int, layout string) bool {
+	if len(shape) == 0 {
+		return layout == "C"
+	}
+	switch layout {
+	case "S", "SS":
+		// the sliced axis must keep more than one entry, otherwise AP.S drops it
+		return shape[len(shape)-1] > 1
+	case "T":
+		return true
+	}
+	return true
+}
+
+// vSnapshot reads every logical element of t through At (row-major order of its shape).
+func vSnapshot[T vScalar](t *Dense) []T {
+	shape := []int(t.Shape())
+	out := make([]T, vProd(shape))
+	if len(shape) == 0 || t.IsScalar() {
+		x, err := t.At()
+		if err != nil {
+			// scalar-equivalent with explicit unit dims
+			c := make([]int, len(shape))
+			x, err = t.At(c...)
+			if err != nil {
+				panic("vSnapshot: At failed")
+			}
+		}
+		out[0] = x.(T)
+		return out
+	}
+	vForCoords(shape, func(c []int) {
+		x, err := t.At(c...)
+		if err != nil {
+			panic("vSnapshot: At failed")
+		}
+		out[vRowRank(shape, c)] = x.(T)
+	})
+	return out
+}
